@@ -125,9 +125,6 @@ func pbkdf2Grid(c *vf.Ctx) {
 				}
 				c.Violation(cls, d)
 			}
-			if !bytes.Equal(pw, pwc) || !bytes.Equal(salt, sc) {
-				c.Violation("pbkdf2.Key modifies its inputs", d)
-			}
 			c.Outcome("pbkdf2-ok")
 		}
 		if g.klen > g.h.size {
@@ -235,9 +232,6 @@ func hkdfGrid(c *vf.Ctx) {
 					d["n"] = n
 					c.Violation(name+": more than 255*HashLen bytes available", d)
 				}
-			}
-			if !bytes.Equal(secret, secC) || !bytes.Equal(salt, saltC) || !bytes.Equal(info, infoC) {
-				c.Violation("hkdf modifies its inputs", d)
 			}
 			c.Outcome("hkdf-ok")
 		}
